@@ -19,6 +19,10 @@ func main() {
 		replayFile(os.Args[2])
 		return
 	}
+	if os.Args[1] == "selftest" {
+		selftest()
+		return
+	}
 	prop := os.Args[1]
 	tier := "quick"
 	if len(os.Args) > 2 {
